@@ -31,6 +31,16 @@ extern long verif_live_blocks(void) __attribute__((weak));
 extern void verif_fail_at(long k) __attribute__((weak));
 extern long verif_alloc_count(void) __attribute__((weak));
 extern const char *verif_site_log(void) __attribute__((weak));
+extern void verif_free(void *p) __attribute__((weak));
+
+/* release memory that the library allocated and handed to the caller */
+static void lib_free(void *p)
+{
+	if (verif_free)
+		verif_free(p);
+	else
+		free(p);
+}
 
 static FILE *obs;			/* observation stream */
 static int quiet;			/* suppress diagnostics made by the harness' own lookups */
@@ -1112,7 +1122,7 @@ static void run_line(char *line)
 		fputs("S ", obs);
 		puthex(r);
 		fputs("\n", obs);
-		free(r);
+		lib_free(r);
 		free(p);
 	} else if (!strcmp(w[0], "SQ") && n == 3) {
 		char *p = unhex(w[2], NULL);
@@ -1123,7 +1133,7 @@ static void run_line(char *line)
 		fputs("S ", obs);
 		puthex(r);
 		fputs("\n", obs);
-		free(r);
+		lib_free(r);
 		free(p);
 	} else if (!strcmp(w[0], "LIVE")) {
 		/* live blocks allocated by confuse.c, minus the `values` pointer arrays (see Model/Ledger.lean) */
